@@ -76,6 +76,8 @@ def estimate(site, c, g):
             ss.run_by_name("a")
         ss.mpe("a", sel_freq=[fn], **kw)
         Fn, Xi, Phi = alg.result.Fn, alg.result.Xi, alg.result.Phi
+    if np.size(Fn) != 1 or np.size(Xi) != 1 or np.ndim(Phi) != 2 or np.shape(Phi)[1] != 1:
+        raise MalformedResult(f"one mode requested: Fn {np.shape(Fn)}, Xi {np.shape(Xi)}, Phi {np.shape(Phi)}")
     return float(np.ravel(Fn)[0]), float(np.ravel(Xi)[0]), np.asarray(Phi)[:, 0]
 
 
@@ -136,10 +138,17 @@ def check_case(col, t):
                 col.mark_nontrivial(json.dumps([c, site, g_id], sort_keys=True))
 
 
+class MalformedResult(Exception):
+    pass
+
+
 def core_call(col, fn, key, c, rep):
     """run the library; an exception raised below a pyoma2 frame is a violation (the claim says the estimates are returned)"""
     try:
         return fn()
+    except MalformedResult as e:
+        col.violation(key.replace("/raised", "/malformed_result"), f"{key}: {e} for in-claim configuration {c}", rep)
+        return None, None, None
     except Exception as e:                                   # noqa: BLE001
         if core.library_raised(e):
             col.violation(key, f"{key}: the library raised {type(e).__name__}: {e} for in-claim configuration {c}", rep)
